@@ -1113,6 +1113,19 @@ pub fn locate_glyf(d: &[u8], offsets: &[usize], rng: &mut Rng) -> Vec<Field> {
     f(&mut out, "glyf.xMax", s + 6, 2, n);
     f(&mut out, "glyf.yMax", s + 8, 2, n);
     let ncont = i16::from_be_bytes([d[s], d[s + 1]]);
+    if e - s >= 526 {
+        // the largest simple glyph the format allows: one contour of 65535 points, written
+        // with 256 repeated flags (on-curve, x and y "same"), no coordinate bytes
+        let mut g = Vec::with_capacity(526);
+        g.extend_from_slice(&1i16.to_be_bytes());
+        g.extend_from_slice(&d[s + 2..s + 10]);
+        g.extend_from_slice(&65534u16.to_be_bytes());
+        g.extend_from_slice(&0u16.to_be_bytes());
+        for _ in 0..256 {
+            g.extend_from_slice(&[0x39, 0xFF]);
+        }
+        fw(&mut out, "glyf.simple.maxPoints", s, g, n);
+    }
     if ncont >= 0 {
         let nc = ncont as usize;
         if nc > 0 && s + 10 + 2 * nc + 2 <= e {
